@@ -6,7 +6,6 @@ import random
 
 from .. import common, runner, threads, locked
 
-KNOWN_HSM = 'C06:hsm:event-runs-without-model-contexts'
 
 
 # ---------------------------------------------------------------------------------------------
@@ -47,7 +46,7 @@ def gen_call(rng, case, tags, depth=0, kinds=None):
     return call
 
 
-def gen_case(rng, nthreads, maxcalls, hsm_extras=0.35):
+def gen_case(rng, nthreads, maxcalls, hsm_extras=0.7):
     case = {'cls': rng.choice(['flat', 'flat', 'hsm']), 'base': copy.deepcopy(rng.choice(BASES)),
             'nmodels': rng.randint(1, 3), 'ignore': rng.random() < 0.4, 'queued': rng.random() < 0.2,
             'extras': {}, 'threads': []}
@@ -89,13 +88,6 @@ def requests_for(case, run):
     L = locked.machine_lock_id(case)
     reqs = [('c06run', cfg + locked.enc_progs(progs) + [len(sched)] + sched),
             ('c06mon', [L] + cfg + [n] + locked.enc_events(ev))]
-    if case['cls'] == 'hsm':
-        noex = dict(case, extras={})
-        reqs.append(('c06mon', [L] + locked.enc_cfg(noex) + [n] + locked.enc_events(ev)))
-        # the model of a hierarchical machine that DOES hold model contexts (= the flat protocol, for which
-        # the full-strength theorems hold): an implementation that behaves like it is accepted as well
-        flat = dict(case, cls='flat')
-        reqs.append(('c06run', locked.enc_cfg(flat) + locked.enc_progs(progs) + [len(sched)] + sched))
     return reqs
 
 
@@ -137,10 +129,6 @@ def judge(case, run, answers, serial_cache):
         except Exception:
             raise common.MachineryError('bad c06run answer: %r' % ans[:200])
     mtrace, done, cur = parse_run(answers[0])
-    if mtrace != ev and len(answers) > 3:
-        alt = parse_run(answers[3])
-        if alt[0] == ev:
-            mtrace, done, cur = alt
     if mtrace != ev:
         i = 0
         while i < min(len(mtrace), len(ev)) and mtrace[i] == ev[i]:
@@ -156,14 +144,7 @@ def judge(case, run, answers, serial_cache):
     if not no:
         fails.append(('monitor', 'noOverlap', {'lock': L}, None))
     if not co or (st == 'ok' and not cd):
-        sig = None
-        if case['cls'] == 'hsm' and len(answers) > 2 and any(case['extras'].values()):
-            no2, co2, cd2 = [int(x) for x in answers[2].split()]
-            # exactly the listed finding: the machine contexts are held in order around every call, only
-            # the model's own contexts are missing, on a hierarchical machine
-            if co2 and (cd2 or st != 'ok') and no and mtrace == ev:
-                sig = KNOWN_HSM
-        fails.append(('monitor', 'contextsOrder', {'configured_extras': case['extras']}, sig))
+        fails.append(('monitor', 'contextsOrder', {'class': case['cls'], 'configured_extras': case['extras']}, None))
     if not locked.blocks_contiguous(ev):
         fails.append(('monitor', 'callbacks_interleaved', {}, None))
     if st == 'ok':
@@ -271,7 +252,8 @@ def _c(tag, kind, args, script=None):
     return {'tag': tag, 'kind': kind, 'args': args, 'script': script or {}}
 
 
-# fixed cases run first on every run (random schedules): the known-finding witness, contention on one model with a
+# fixed cases run first on every run (random schedules): the witness of the former finding (hierarchical machine
+# with a model context; fixed in /repo 2c648fd — a return of the defect is a violation), contention on one model with a
 # raising call and a re-entrant call, machine methods against events
 CORPUS = [
     {'cls': 'hsm', 'base': [], 'nmodels': 1, 'ignore': False, 'queued': False, 'extras': {'0': [['user', 7]]},
@@ -431,8 +413,8 @@ class C06(runner.Check):
     prop = 'C06'
     level = 'proof'
     theorems = ('TM.Locked.C06_mutex', 'TM.Locked.C06_no_overlap', 'TM.Locked.C06_serializable',
-                'TM.Locked.C06_reentrant_no_deadlock', 'TM.Locked.C06_contexts_held_in_order_partial',
-                'TM.Locked.C06_contexts_held_in_order_counterexample', 'TM.Locked.C06_released_on_raise')
+                'TM.Locked.C06_reentrant_no_deadlock', 'TM.Locked.C06_contexts_held_in_order',
+                'TM.Locked.C06_released_on_raise')
     rule = ('thread programs on real LockedMachine / LockedHierarchicalMachine objects (default and user supplied '
             'machine_context lists containing a mutex, model_context lists, 1-3 shared models): 2-4 threads x 1-3 calls '
             '(events by attribute and by model.trigger, add_transition, add_states, set_state, remove_model, re-entrant '
@@ -447,7 +429,7 @@ class C06(runner.Check):
                'with-statement / ExitStack unwinding (Python language guarantee)')
     manifest = dict(
         level='proof', design='DESIGN.md 4/C06, design_notes/C06.md',
-        text="Lean 4 theorems over a small-step model of locking.py's protocol (read of IdentManager.current, ExitStack enter loop, PicklableLock, ident writes, engine steps, unwinding), for ALL thread programs, ALL schedules, any number of threads, all context configurations containing a mutex: mutual exclusion and current in {0, holder} (C06_mutex), every trace passes the noOverlap monitor (C06_no_overlap), machine state and engine-step log equal those of a serial execution of the calls (C06_serializable), calls from callbacks acquire nothing and are never blocked (C06_reentrant_no_deadlock), all configured contexts entered in order before the first and exited after the last engine step, also for raising calls (C06_contexts_held_in_order_partial, C06_released_on_raise; false for LockedHierarchicalMachine with model contexts: C06_contexts_held_in_order_counterexample, known finding). The real classes are run under a deterministic thread controller; their traces must equal the model's under the same schedule, pass the verified monitors, leave everything released, and their states / return values / per-call callback traces must equal a serial execution. PARTIAL: atomicity of the individual shared-memory actions (GIL, threading.Lock) is assumed, not verified.",
+        text="Lean 4 theorems over a small-step model of locking.py's protocol (read of IdentManager.current, ExitStack enter loop, PicklableLock, ident writes, engine steps, unwinding), for ALL thread programs, ALL schedules, any number of threads, all context configurations containing a mutex: mutual exclusion and current in {0, holder} (C06_mutex), every trace passes the noOverlap monitor (C06_no_overlap), machine state and engine-step log equal those of a serial execution of the calls (C06_serializable), calls from callbacks acquire nothing and are never blocked (C06_reentrant_no_deadlock), all configured contexts entered in order before the first and exited after the last engine step, also for raising calls (C06_contexts_held_in_order, C06_released_on_raise; flat and hierarchical machines). The real classes are run under a deterministic thread controller; their traces must equal the model's under the same schedule, pass the verified monitors, leave everything released, and their states / return values / per-call callback traces must equal a serial execution. PARTIAL: atomicity of the individual shared-memory actions (GIL, threading.Lock) is assumed, not verified.",
         note="Trusted: Lean kernel, Model/Locked.lean, the thread controller (harness/threads.py) and its replacement of locking.Lock / locking.IdentManager, Python's with/ExitStack unwinding. Engine behaviour inside a call is opaque in the model (arbitrary effect function); it is covered by C01-C05. may_* helpers, dispatch and events on models after remove_model are outside the statement's call list.",
         technique='Lean 4 proof (invariant + induction over schedules, simulation of verified monitors, refinement to a sequential reference) + deterministic thread controller + trace correspondence + verified trace monitors + serial-outcome oracle',
         engines=('thread-controller',))
@@ -510,8 +492,8 @@ class C06(runner.Check):
             'partial: atomicity of single shared-memory actions (attribute reads/writes under the GIL, threading.Lock) is assumed; the harness replaces threading.Lock by a scheduler-aware mutex',
             'machine_context always contains a mutex (library default, or a user supplied non re-entrant lock); with only opaque user contexts no serialization can be expected',
             'contexts are judged on outermost calls; a re-entrant event on ANOTHER model runs under the outer call\'s contexts only (the code skips every acquisition when the thread owns the machine) - recorded, not judged',
-            'remove_model is exercised on models that receive no events; an event on a model after its removal finds an empty model_context_map entry and runs without any context (flat LockedMachine) - outside the statement\'s call list, recorded in design_notes/C06.md',
-            'add_model on an already registered model duplicates its context list (self-deadlock with the default lock): add_model is outside the statement\'s call list, recorded, not judged',
+            'remove_model is exercised on models that receive no events. Judged OUTSIDE the statement: an event on a model after machine.remove_model(model) - the model is then no longer a model of the machine and has no configured contexts (the statement speaks of the contexts configured for the event\'s model); on a flat LockedMachine such an event finds an empty model_context_map entry and runs without a context around it (the hierarchical class falls back to the machine contexts) - recorded in design_notes/C06.md, not judged',
+            'add_model is outside the statement\'s call list (re-adding a registered model no longer duplicates its contexts since /repo 80b7897; C10 covers membership)',
             'may_* helpers and dispatch are outside the statement\'s call list',
             'user supplied contexts do not raise in __enter__/__exit__ and user mutexes are non re-entrant',
             'exhaustive enumeration is bounded by the number of preemptions (2 quick / 3 thorough) and capped per program; the theorems are unbounded',
